@@ -49,6 +49,7 @@ PLANS = {
     },
     "C01": {
         "machine": "regworld",
+        "peer": True,
         "technique": 'deterministic simulation: registry world biased to twins / near-miss mutants / separator-bearing strings, partition check content_id vs harness-side structural key after every step; peer interpreter with another PYTHONHASHSEED and permuted field declaration order',
         "level_text": 'seeded exploration; decides independence of content_id from registry history, lifetime, process/hash seed and field order; injectivity is sampled on all node pairs each world state contains',
         "level_note": 'trusted: structural key (DESIGN A.1) from the universe TABLE; digest sizes >= 8 only; the pure injectivity core is sampled, not enumerated',
@@ -61,5 +62,32 @@ PLANS = {
         "distinct = distinct abstract traces; non-trivial = a twin was created or >= 5 steps",
         "expect_probes": ["twin_created"],
         "assumptions": ["structural key of DESIGN.md A.1 computed from field values by the universe TABLE", "digest sizes >= 8 only"],
+    },
+    "C04": {
+        "machine": "regworld",
+        "peer": True,
+        "technique": "deterministic simulation: persister scripts (snapshot+serialize ... deserialize) with other actors' ops and crashes (drops of any part of the tree, twins created/dropped, id take-over) interleaved in the gap; end points: same interpreter or a fresh peer interpreter (other hash seed, pristine registry, sources loaded from the shipped table); harness-side snapshot oracle",
+        "level_text": "seeded exploration of histories x 4 formats x {default, index-based sources} x alive-subsets at read time; every position of every round-trip judged against a harness-side snapshot (identity for registered originals, exact class/id/content_id/property types/origin/sharing for re-created nodes)",
+        "level_note": "trusted: harness snapshot (never pyoak's serializer), universe TABLE; positions whose id was taken over by another live node are exempt per the property's proviso and taint their ancestors (own fields still compared); Source._raw is documented as not serialized and excluded",
+        "design_ref": "DESIGN.md 5/C04",
+        "level": "exploration",
+        "runs": {"quick": 4000, "thorough": 80000},
+        "wall_cap": {"quick": 80, "thorough": 900},
+        "rule": "one evaluation = one seeded run with serialize/deserialize scripts interleaved with drops, detaches, twins; distinct = distinct abstract traces; non-trivial = at least one deserialization (same process or fresh process) was judged",
+        "expect_probes": ["deser_reused_live_node", "deser_recreated", "deser_forced_id", "id_taken_over", "shared_subtree_roundtrip", "fresh_process_roundtrip", "roundtrip_fully_judged"],
+        "assumptions": ["value kinds limited to the representable kinds of the property (no frozensets)", "YAML/JSON/msgpack libraries are real (PyYAML C loader, orjson, msgpack)"],
+    },
+    "C09": {
+        "machine": "regworld",
+        "technique": "deterministic simulation with fault enumeration: rule-set visitors (keep/rewrite/fresh/existing/remove/raise, strict and MRO dispatch) transform trees inside the shared registry world; every transform is repeated with the k-th visitor call raising for every k; reference rewriting (A.4) with identity expectations",
+        "level_text": "histories sampled by seed; for each transformed tree every visitor-call fault position k is enumerated (all k when <= 24 calls, else 24 evenly spaced); result compared position by position with the reference rewriting incl. object identity; frame condition on all pre-existing nodes after every (faulted) transform",
+        "level_note": "trusted: reference rewriting of DESIGN A.4 under the stated convention (visit_X = generic_visit then rule; rules produce new objects); RUNTIME_TYPE_CHECK off in this machine (ill-typed rewrites would be rejected by design)",
+        "design_ref": "DESIGN.md 5/C09, A.4",
+        "level": "fault_enumeration",
+        "runs": {"quick": 4000, "thorough": 80000},
+        "wall_cap": {"quick": 80, "thorough": 900},
+        "rule": "one evaluation = one seeded run; each transform op inside it is executed once plain and once per enumerated fault position; distinct = distinct abstract traces; non-trivial = at least one transform executed",
+        "expect_probes": ["transform_changed_tree", "transform_unchanged_tree", "transform_fault_enumerated", "transform_raised_midway"],
+        "assumptions": ["a node object sitting at two positions is visited once per position"],
     },
 }
